@@ -494,7 +494,7 @@ def r6(R):
       'under (which new_oid consults, C20.R6) is emptied only by the owner of '
       'the commit lock: after the acquire in tpc_begin, or behind the '
       'transaction-identity check of finish/abort -- never by a committer '
-      'that is still waiting', props=['C10'], min_instances=3)
+      'that is still waiting', props=['C10', 'C11'], min_instances=3)
 def r7(R):
     from ..twopc import commit_lock_ops, identity_guard
     ds = R.prog.cls(DS)
